@@ -267,42 +267,43 @@ def tearfree_dispatch(ctx):
 
 def tearfree_norm_optimisers(ctx):
   m = ctx.model
-  fe = m.func('tearfree.grafting', '_rmsprop.update_fn.ema')
   fu = m.func('tearfree.grafting', '_rmsprop.update_fn')
-  ctx.analysed(fe, fu)
+  ctx.analysed(fu)
   cmpr = Comparer()
   for one in (True, False):
+    # the whole update is evaluated; helpers (however they are named or nested) are inlined
     ev = evaluator(m, decide=Decider(cmps={('options.second_moment_decay', '==', 1.0): one}))
-    r = ev.run(fe)
-    sc = ev.closure_env(fe)
-    opts = ev.lookup('options', sc)
-    env = {'prev': sym('param', fe.short, 'prev'), 'new': sym('param', fe.short, 'new'), 'options': opts}
-    src = 'new * new + prev' if one else 'new * new * (1 - options.second_moment_decay) + options.second_moment_decay * prev'
-    ctx.ob('C05.R2', fe.short, f'rmsprop accumulator [decay==1: {one}]', cmpr.same(r, spec_term(ev, src, env)),
-           f'RMSProp accumulator must be `{src}`; got `{cmpr.fmt(r)}`', ctx.loc(fe), sample=src)
-  ev = evaluator(m, opaque={'ema'})
-  r = ev.run(fu)
-  ok = False
-  if r.op == 'tuple' and len(r.args) == 2:
-    upd = r.args[0]
-    elt = upd.args[0] if upd.op == 'tmap' else upd
-    sc = ev.closure_env(fu)
-    opts = ev.lookup('options', sc)
-    g = [x for x in walk(elt) if x.op == 'leaf']
-    exp_ok = any(is_ext_call(x, 'jax.lax.rsqrt') for x in walk(elt))
-    sb = Comparer()
-    leaves_ = {show(x, maxdepth=3) for x in g}
-    # g * rsqrt(acc' + eps) with acc' the NEW accumulator
-    new_acc = rec_fields(r.args[1])
-    ok = exp_ok and new_acc is not None and any(fn_name(y) == 'ema' for y in walk(new_acc['acc']))
-    rs = [x for x in walk(elt) if is_ext_call(x, 'jax.lax.rsqrt')]
-    if ok and rs:
-      inner = rs[0].args[1][0]
-      ok = inner.op == 'bin' and inner.args[0] == '+' and any(path_str(y) == 'options.epsilon' for y in (inner.args[1], inner.args[2])) \
-          and any(fn_name(z) == 'ema' for z in walk(inner))
-      ok = ok and elt.op == 'bin' and elt.args[0] == '*'
-  ctx.ob('C05.R2', fu.short, 'rmsprop step', ok,
-         'RMSProp graft step must be g * rsqrt(new_accumulator + epsilon)', ctx.loc(fu), sample='g * rsqrt(acc\' + eps)')
+    r = ev.run(fu)
+    ok_acc = ok_step = False
+    got_acc = got_step = NONE
+    if r.op == 'tuple' and len(r.args) == 2:
+      upd, st = r.args
+      rf = rec_fields(st)
+      acc = rf.get('acc') if rf else None
+      U = T('leaf', sym('param', fu.short, 'updates'))
+      A = T('leaf', ev.attr(sym('param', fu.short, 'state'), 'acc'))
+      opts = None
+      for x in walk(upd):
+        if x.op == 'attr' and x.args[1] == 'epsilon':
+          opts = x.args[0]
+      env = {'u': U, 'a': A, 'options': opts if opts is not None else sym('spec', 'options')}
+      acc_src = 'u * u + a' if one else 'u * u * (1 - options.second_moment_decay) + options.second_moment_decay * a'
+      if acc is not None and acc.op == 'tmap':
+        got_acc = acc.args[0]
+        ok_acc = cmpr.same(got_acc, spec_term(ev, acc_src, env)) and set(acc.args[1]) == {sym('param', fu.short, 'updates'), ev.attr(sym('param', fu.short, 'state'), 'acc')}
+      if upd.op == 'tmap':
+        got_step = upd.args[0]
+        # the accumulator inside the step is the NEW one (a leaf of the freshly mapped tree, i.e. the same expression)
+        new_leaf = [x for x in walk(got_step) if x.op == 'leaf' and x.args[0].op == 'tmap']
+        g2 = got_step
+        if new_leaf and acc is not None and new_leaf[0].args[0] is acc:
+          from ..terms import subst
+          g2 = subst(got_step, {new_leaf[0]: got_acc})
+        ok_step = cmpr.same(g2, spec_term(ev, f'u * jax.lax.rsqrt(({acc_src}) + options.epsilon)', env))
+    ctx.ob('C05.R2', fu.short, f'rmsprop accumulator [decay==1: {one}]', ok_acc,
+           f'RMSProp accumulator must be `{acc_src}` per leaf of (state.acc, updates); got `{cmpr.fmt(got_acc)[:200]}`', ctx.loc(fu), sample=acc_src)
+    ctx.ob('C05.R2', fu.short, f'rmsprop step [decay==1: {one}]', ok_step,
+           f'RMSProp graft step must be g * rsqrt(new_accumulator + epsilon); got `{cmpr.fmt(got_step)[:200]}`', ctx.loc(fu), sample='g * rsqrt(acc\' + eps)')
   fs = m.func('tearfree.grafting', '_sgd')
   ctx.analysed(fs)
   ev = evaluator(m)
